@@ -3,7 +3,6 @@ package lsp
 import (
 	"encoding/json"
 	"fmt"
-	"strings"
 
 	"github.com/formancehq/numscript/internal/analysis"
 	"github.com/formancehq/numscript/internal/parser"
@@ -245,9 +244,10 @@ func toLspRange(p parser.Range) Range {
 	}
 }
 
-// LSP positions count UTF-16 code units (the protocol's default position encoding),
-// while parser positions count characters: they differ on the lines that hold
-// characters outside of the basic multilingual plane.
+// LSP positions count UTF-16 code units (the protocol's default position encoding)
+// and end a line at "\r\n", "\n" or a lone "\r", while parser positions count
+// characters and end a line at "\n" only. The two are mapped onto each other
+// through the offset of the position in the text.
 
 func utf16Len(r rune) int {
 	if r >= 0x10000 {
@@ -256,37 +256,91 @@ func utf16Len(r rune) int {
 	return 1
 }
 
-func lineAt(text string, line int) []rune {
-	lines := strings.Split(text, "\n")
-	if line < 0 || line >= len(lines) {
-		return nil
-	}
-	return []rune(lines[line])
-}
-
-// from a column in UTF-16 code units to a column in characters
-func charactersPosition(text string, p parser.Position) parser.Position {
-	units := 0
-	for index, r := range lineAt(text, p.Line) {
-		units += utf16Len(r)
-		if units > p.Character {
-			return parser.Position{Line: p.Line, Character: index}
+// the offsets (in characters) at which the lines start, in both conventions
+func lineStarts(text []rune) (lspStarts []int, parserStarts []int) {
+	lspStarts = []int{0}
+	parserStarts = []int{0}
+	for index, r := range text {
+		switch {
+		case r == '\n':
+			parserStarts = append(parserStarts, index+1)
+			lspStarts = append(lspStarts, index+1)
+		case r == '\r' && !(index+1 < len(text) && text[index+1] == '\n'):
+			lspStarts = append(lspStarts, index+1)
 		}
 	}
-	// at or past the end of the line: nothing left to convert
-	return parser.Position{Line: p.Line, Character: p.Character - units + len(lineAt(text, p.Line))}
+	return lspStarts, parserStarts
 }
 
-// from a column in characters to a column in UTF-16 code units
-func utf16Position(text string, p parser.Position) Position {
+func lineOfOffset(starts []int, offset int) int {
+	line := 0
+	for line+1 < len(starts) && starts[line+1] <= offset {
+		line++
+	}
+	return line
+}
+
+// from an LSP position to a parser position
+func charactersPosition(source string, p parser.Position) parser.Position {
+	text := []rune(source)
+	lspStarts, parserStarts := lineStarts(text)
+
+	if p.Line < 0 || p.Line >= len(lspStarts) {
+		// not a line of the text, in either convention
+		return parser.Position{Line: p.Line - len(lspStarts) + len(parserStarts), Character: p.Character}
+	}
+
+	offset := lspStarts[p.Line]
 	units := 0
-	for index, r := range lineAt(text, p.Line) {
-		if index >= p.Character {
+	for offset < len(text) && text[offset] != '\n' && text[offset] != '\r' {
+		units += utf16Len(text[offset])
+		if units > p.Character {
 			break
 		}
-		units += utf16Len(r) - 1
+		offset++
 	}
-	return toLspPosition(parser.Position{Line: p.Line, Character: p.Character + units})
+
+	line := lineOfOffset(parserStarts, offset)
+	position := parser.Position{Line: line, Character: offset - parserStarts[line]}
+	if units <= p.Character {
+		// at or past the end of the line
+		pastTheEnd := p.Character - units
+		if pastTheEnd > 0 && offset < len(text) && text[offset] == '\r' && lineOfOffset(lspStarts, offset+1) != p.Line {
+			// the parser's line goes on after a lone "\r": past the end of the LSP line there is nothing
+			return parser.Position{Line: len(parserStarts), Character: pastTheEnd}
+		}
+		position.Character += pastTheEnd
+	}
+	return position
+}
+
+// from a parser position to an LSP position
+func utf16Position(source string, p parser.Position) Position {
+	text := []rune(source)
+	lspStarts, parserStarts := lineStarts(text)
+
+	if p.Line < 0 || p.Line >= len(parserStarts) {
+		return toLspPosition(p)
+	}
+
+	// the end of the parser's line (a position may lie past it)
+	lineEnd := len(text)
+	if p.Line+1 < len(parserStarts) {
+		lineEnd = parserStarts[p.Line+1] - 1
+	}
+	offset := parserStarts[p.Line] + p.Character
+	pastTheEnd := 0
+	if offset > lineEnd {
+		pastTheEnd = offset - lineEnd
+		offset = lineEnd
+	}
+
+	line := lineOfOffset(lspStarts, offset)
+	units := 0
+	for _, r := range text[lspStarts[line]:offset] {
+		units += utf16Len(r)
+	}
+	return toLspPosition(parser.Position{Line: line, Character: units + pastTheEnd})
 }
 
 func toLspRangeIn(text string, p parser.Range) Range {
